@@ -227,6 +227,8 @@ func compareRecords(a, b gts.Sequence, structural bool) (field, detail string) {
 		return "comments", fmt.Sprintf("%q vs %q", ga.Comments, gb.Comments)
 	case ga.Contig != gb.Contig:
 		return "contig", fmt.Sprintf("%v vs %v", ga.Contig, gb.Contig)
+	case fmt.Sprint(ga.Region) != fmt.Sprint(gb.Region):
+		return "region", fmt.Sprintf("%v vs %v", ga.Region, gb.Region)
 	}
 	if len(ga.DBLink) != len(gb.DBLink) {
 		return "dblink", fmt.Sprintf("%v vs %v", ga.DBLink, gb.DBLink)
